@@ -330,9 +330,7 @@ def fault_table(cx):
         ('beads instrument read from that row', "BIID = BR['Instrument ID']"),
         ('beads acquired on another instrument -> row error', "if BIID != %s['Instrument ID']:" % rw),
         ('beads amplification type read from the column the beads statistics wrote', "BAT = BR['{} Amp. Type'.format(CH)]"),
-        ('sample amplification type: Log iff the channel has decades', 'if %s.amplification_type(CH)[0]:' % smp),
-        ('... Log', "SAT = 'Log'"),
-        ('... Linear', "SAT = 'Linear'"),
+        ('sample amplification type: Log iff the channel has decades', "SAT = 'Log' if %s.amplification_type(CH)[0] else 'Linear'" % smp),
         ('beads acquired with another amplification type -> row error', 'if BAT != SAT:'),
         ('beads detector voltage read from the column the beads statistics wrote', "BDV = BR['{} Detector Volt.'.format(CH)]"),
         ('beads acquired with another detector voltage (when the sample records one) -> row error',
@@ -683,9 +681,7 @@ def histograms_table(cx):
     tbl, smp = fn.params[0], fn.params[1]
     items = [
         ('units of the row/channel', 'UNIT = %s[H][R]' % tbl),
-        ('linear scale iff the units are channel numbers', "if UNIT == 'Channel':"),
-        ('... linear', "SCALE = 'linear'"),
-        ('... otherwise logicle', "SCALE = 'logicle'"),
+        ('linear scale iff the units are channel numbers, otherwise logicle', "SCALE = 'linear' if UNIT == 'Channel' else 'logicle'"),
         ('number of bins = min(resolution of the channel, max_bins)', 'NB = min(%s[R].resolution(C), max_bins)' % smp),
         ('edges and centres come from the library\'s grid with twice the bins', 'BE = %s[R].hist_bins(C, 2 * NB, SCALE)' % smp),
         ('edges are every other point', 'EDGES = BE[::2]'),
@@ -715,10 +711,7 @@ def run_sequence(cx):
         ('sample statistics added to the samples table', 'add_samples_stats(ST, SS)'),
         ('histograms from the samples table and results', 'HT = generate_histograms_table(ST, SS)'),
         ('about table', "AT = generate_about_table({'Input file path': input_path})"),
-        ('sheet list starts empty', 'TL = []'),
-        ('sheet 1: Instruments', "TL.append(('Instruments', IT))"),
-        ('sheet 2: Beads', "TL.append(('Beads', BT))"),
-        ('sheet 3: Samples', "TL.append(('Samples', ST))"),
+        ('sheets 1-3: Instruments, Beads, Samples, in this order', "TL = [('Instruments', IT), ('Beads', BT), ('Samples', ST)]"),
         ('optional sheet: Histograms', "TL.append(('Histograms', HT))"),
         ('last sheet: About Analysis', "TL.append(('About Analysis', AT))"),
         ('workbook written', 'write_workbook(output_path, TL)'),
@@ -733,7 +726,7 @@ def run_sequence(cx):
                 return st.lineno
         return None
     seq = ['read_table(input_path', 'process_beads_table(', 'add_beads_stats(', 'process_samples_table(', 'add_samples_stats(',
-           "generate_about_table(", "append(('Instruments'", "append(('Beads'", "append(('Samples'", "append(('Histograms'",
+           "generate_about_table(", "[('Instruments'", "append(('Histograms'",
            "append(('About Analysis'", 'write_workbook(']
     lines = [line(s) for s in seq]
     ok = None not in lines and lines == sorted(lines)
@@ -750,7 +743,7 @@ def run_sequence(cx):
         ok = fn.parent.get(id(st)) is fn.ast
         fn.ob('SEQ', 'the workbook is written on every path that processed the tables', ok, st, key='write-unconditional')
     for name in ('Instruments', 'Beads', 'Samples', 'About Analysis'):
-        ap = [s for s in fn.stmts(ast.Expr) if "append(('%s'" % name in ast.unparse(s)]
+        ap = [s for s in fn.stmts((ast.Expr, ast.Assign)) if "('%s'" % name in ast.unparse(s) and 'table' in ast.unparse(s).lower()]
         ok = len(ap) == 1 and fn.parent.get(id(ap[0])) is fn.ast
         fn.ob('SEQ', 'sheet %s is always written' % name, ok, ap[0] if ap else fn.ast, key='sheet-' + name)
     # default output path next to the input
@@ -822,6 +815,6 @@ def column_agreement(cx):
         ('detector voltage column created per MEF channel', "T[C + ' Detector Volt.'] = np.nan"),
         ('amplification type column created per MEF channel', "T[C + ' Amp. Type'] = ''"),
         ('voltage of the gated beads in that channel', "T.at[R, C + ' Detector Volt.'] = BS[R].detector_voltage(C)"),
-        ('Log iff the channel has decades', 'if BS[R].amplification_type(C)[0]:'),
+        ('Log iff the channel has decades', "AT = 'Log' if BS[R].amplification_type(C)[0] else 'Linear'"),
         ('amplification type written', "T.at[R, C + ' Amp. Type'] = AT"),
     ], ['T', 'C', 'R', 'BS', 'AT'], fixed={'T': w.params[0], 'BS': w.params[1]})
